@@ -1,7 +1,622 @@
-//! C08: correspondence + oracle runs (sub-commands `c08` / `c08-*`).
-use hcommon::*;
+//! C08 (IPv4 / UDP / TCP part): generators for the header codecs.  Sub-commands `c08-ipv4`,
+//! `c08-udp`, `c08-tcp`.  The same generators, with another op mix, drive C18 (`c18-*`, built
+//! with `compute_checksum`) and the decoder-totality part of C14 (`c14-ipv4/udp/tcp`).
+//! Executor + oracle: `c08_exec.rs`; independent reference: `c08_ref.rs`.
+use super::c08_exec::{self as ex, Ip4B, TcpRef, CK};
+use super::c08_ref as rf;
+use super::c08_exec::hex;
+use hcommon::{catch, read_ops, Args, Out, Rng};
+
+#[derive(Clone, Copy, PartialEq, Eq)]
+pub enum Mode {
+    /// round trips, RFC comparison, some malformed input
+    C08,
+    /// + crafted sums, single/double bit corruption, accumulator sequences
+    C18,
+    /// malformed stream only: random bytes, truncations, field mutations, extreme lengths
+    C14,
+}
+
+// ---------------- boundary-biased values ----------------
+
+/// random bytes of a random length below `n`
+pub fn rbytes(r: &mut Rng, n: u64) -> Vec<u8> {
+    let l = r.below(n) as usize;
+    r.bytes(l)
+}
+pub fn v8(r: &mut Rng) -> u8 {
+    if r.chance(1, 2) { *r.pick(&[0u8, 1, 2, 0x3f, 0x40, 0x7f, 0x80, 0xfe, 0xff]) } else { r.next() as u8 }
+}
+pub fn v16(r: &mut Rng) -> u16 {
+    if r.chance(1, 2) { *r.pick(&[0u16, 1, 2, 0xff, 0x100, 0x1fff, 0x2000, 0x7fff, 0x8000, 0xfffe, 0xffff]) } else { r.next() as u16 }
+}
+pub fn v32(r: &mut Rng) -> u32 {
+    if r.chance(1, 2) {
+        *r.pick(&[0u32, 1, 0xffff, 0x10000, 0x7fff_ffff, 0x8000_0000, 0xffff_fffe, 0xffff_ffff, 0x7f00_0001, 0x0a00_0001, 0xc0a8_0101])
+    } else {
+        r.next() as u32
+    }
+}
+/// payload length: small, odd/even, MTU-sized, and the 16-bit limits (`limit` = largest that fits)
+pub fn vlen(r: &mut Rng, limit: usize) -> usize {
+    match r.below(50) {
+        0..=19 => *r.pick(&[0usize, 1, 2, 3, 7, 8, 9, 19, 20, 21, 64, 65]),
+        20..=39 => r.below(200) as usize,
+        40..=47 => *r.pick(&[1460usize, 1472, 1480, 1499, 1500]),
+        48 => r.below(limit as u64 + 1) as usize,
+        _ => *r.pick(&[limit, limit - 1, limit - 2]),
+    }
+}
+
+// ---------------- IPv4 ----------------
+
+fn ip4_fields(r: &mut Rng) -> Ip4B {
+    let plen = match r.below(10) {
+        0 => 65515,
+        1 => *r.pick(&[65514u16, 65513, 0, 1]),
+        2 => v16(r).min(65515),
+        _ => r.below(1600) as u16,
+    };
+    Ip4B {
+        tos: v8(r) & 0xfc,
+        plen,
+        id: v16(r),
+        fo: v16(r) & 0x1fff,
+        flags: r.below(4) as u8,
+        ttl: v8(r),
+        proto: *r.pick(&[6u8, 17, 1, 0, 255, 89]),
+        src: v32(r),
+        dst: v32(r),
+    }
+}
+
+/// choose `id` so that the one's-complement sum of the header words is 0xffff (RFC checksum 0)
+fn ip4_craft_sum_ffff(b: &mut Ip4B) {
+    b.id = 0;
+    let s = rf::fold(rf::word_sum(&b.reference_bytes(false)));
+    b.id = 0xffff - s;
+}
+
+/// malformed inputs derived from a valid header
+fn ip4_malformed(r: &mut Rng, valid: &[u8]) -> Vec<u8> {
+    let mut v = valid.to_vec();
+    match r.below(10) {
+        0 => rbytes(r, 41),
+        1 | 2 => {
+            v.truncate(r.below(v.len() as u64 + 1) as usize);
+            v
+        }
+        3 => {
+            // extreme / inconsistent total length
+            let tl = *r.pick(&[0u16, 1, 4, 19, 20, 21, 0xffff]);
+            v[2..4].copy_from_slice(&tl.to_be_bytes());
+            v
+        }
+        4 => {
+            v[0] = *r.pick(&[0x44u8, 0x46, 0x4f, 0x40, 0x55, 0x65, 0x05, 0xff]);
+            v
+        }
+        5 => {
+            v[1] |= 1 + r.below(3) as u8;
+            v
+        }
+        6 => {
+            v[6] |= 0x80;
+            v
+        }
+        7 => {
+            // a non-zero / wrong checksum field
+            let c = v16(r);
+            v[10..12].copy_from_slice(&c.to_be_bytes());
+            v
+        }
+        8 => {
+            let i = r.below(v.len() as u64) as usize;
+            v[i] = r.next() as u8;
+            v
+        }
+        _ => {
+            let i = r.below(v.len() as u64 * 8) as usize;
+            rf::flip(&mut v, i);
+            v
+        }
+    }
+}
+
+pub fn gen_ipv4(r: &mut Rng, mode: Mode, case: u64, out: &mut Out) {
+    let mut b = ip4_fields(r);
+    if mode == Mode::C18 && r.chance(1, 4) {
+        ip4_craft_sum_ffff(&mut b);
+        out.count("gen.ip4.crafted_sum_ffff");
+    }
+    let pl = *r.pick(&[0usize, 1, 4, 13]);
+    let payload = r.bytes(pl);
+    let valid = b.reference_bytes(CK);
+    if mode != Mode::C14 {
+        ex::apply(&format!("ip4build {}", b.line()), out);
+        ex::apply(&format!("ip4rt {} {}", b.line(), hex(&payload)), out);
+        // the independent implementation's output (for checksums on: the RFC representation)
+        let mut pkt = valid.clone();
+        pkt.extend_from_slice(&payload);
+        ex::apply(&format!("ip4dec {}", hex(&pkt)), out);
+        if CK && valid[10] == 0 && valid[11] == 0 {
+            // the other representation of zero must be accepted as well
+            let mut alt = pkt.clone();
+            alt[10] = 0xff;
+            alt[11] = 0xff;
+            ex::apply(&format!("ip4dec {}", hex(&alt)), out);
+        }
+        let ck = u16::from_be_bytes([valid[10], valid[11]]);
+        ex::apply(&format!("ip4ser 5 {} {} {} {} {} {} {} {} {} {}", b.tos, b.plen as u32 + 20, b.id, b.fo, b.flags, b.ttl, b.proto, ck, b.src, b.dst), out);
+        out.mark_nontrivial();
+    }
+    if mode == Mode::C08 {
+        // builder / struct misuse: out-of-range inputs (error kinds and the panic site are compared
+        // with the model only)
+        if r.chance(1, 6) {
+            let mut x = b;
+            match r.below(3) {
+                0 => x.plen = 65516 + r.below(20) as u16,
+                1 => x.fo = 0x2000 + (v16(r) & 0xdfff).min(0xdfff),
+                _ => x.flags = 4 + r.below(252) as u8,
+            }
+            ex::apply(&format!("ip4build {}", x.line()), out);
+        }
+        if r.chance(1, 8) {
+            ex::apply(&format!("ip4ser {} {} {} {} {} {} {} {} {} {} {}", v8(r) & 15, v8(r), *r.pick(&[0u16, 19, 20, 21, 65535]), b.id, v16(r), v8(r), b.ttl, b.proto, v16(r), b.src, b.dst), out);
+        }
+        // exhaustive small tables, spread over the cases
+        ex::apply(&format!("ip4tos {}", case % 256), out);
+        let k = case % 64;
+        ex::apply(&format!("ip4tosnew {} {} {} {}", k / 8, (k / 4) % 2, (k / 2) % 2, k % 2), out);
+        ex::apply(&format!("ip4flags {} {}", (case / 2) % 2, case % 2), out);
+    }
+    if mode == Mode::C18 {
+        // every single-bit corruption of the emitted header, and sampled double-bit ones
+        if let Some(emitted) = emitted_ip4(&b) {
+            if case % 8 == 0 {
+                for i in 0..160 {
+                    ex::apply(&format!("ip4flip {} {}", i, hex(&emitted)), out);
+                }
+            } else {
+                for _ in 0..6 {
+                    ex::apply(&format!("ip4flip {} {}", r.below(160), hex(&emitted)), out);
+                }
+            }
+            for _ in 0..6 {
+                let a = r.below(160);
+                // half of the pairs share the bit position within the word (the cancelling shape)
+                let c = if r.chance(1, 2) { (a + 16 * (1 + r.below(9))) % 160 } else { r.below(160) };
+                ex::apply(&format!("ip4flip {},{} {}", a, c, hex(&emitted)), out);
+            }
+        }
+        gen_cksum(r, out);
+    }
+    // malformed stream
+    let n = match mode {
+        Mode::C14 => 12,
+        _ => 2,
+    };
+    for _ in 0..n {
+        let m = ip4_malformed(r, &valid);
+        ex::apply(&format!("ip4dec {}", hex(&m)), out);
+    }
+    if mode == Mode::C14 {
+        // every truncation length of a valid packet
+        if case % 16 == 0 {
+            for l in 0..=valid.len() {
+                ex::apply(&format!("ip4dec {}", hex(&valid[..l])), out);
+            }
+        }
+        out.mark_nontrivial();
+    }
+}
+
+fn emitted_ip4(b: &Ip4B) -> Option<Vec<u8>> {
+    use elvis_core::protocols::ipv4::ipv4_parsing as ip;
+    use elvis_core::protocols::ipv4::Ipv4Address;
+    let b = *b;
+    catch(move || ip::verif_build_header(b.tos, b.plen, b.id, b.fo, b.flags, b.ttl, b.proto, Ipv4Address::from(b.src), Ipv4Address::from(b.dst))).ok()?.ok()
+}
+
+/// sequences of accumulator operations with carries, odd tails and crafted totals
+pub fn gen_cksum(r: &mut Rng, out: &mut Out) {
+    let n = r.below(6) as usize;
+    let mut items: Vec<String> = vec![];
+    let mut data: Vec<u8> = vec![];
+    for _ in 0..n {
+        match r.below(4) {
+            0 => {
+                let v = v16(r);
+                items.push(format!("h:{}", v));
+                data.extend_from_slice(&v.to_be_bytes());
+            }
+            1 => {
+                let (a, b) = (v8(r), v8(r));
+                items.push(format!("b:{}:{}", a, b));
+                data.push(a);
+                data.push(b);
+            }
+            2 => {
+                let v = v32(r);
+                items.push(format!("w:{}", v));
+                data.extend_from_slice(&v.to_be_bytes());
+            }
+            _ => {
+                let l = *r.pick(&[0usize, 1, 2, 3, 5, 8]);
+                let b = if r.chance(1, 3) { vec![0xffu8; l] } else { r.bytes(l) };
+                items.push(format!("r:{}", hex(&b)));
+                data.extend_from_slice(&b);
+                if l % 2 == 1 {
+                    data.push(0);
+                }
+            }
+        }
+    }
+    // crafted: complete the running total to 0xffff, to 0x0000 (only from zeros) or to one past
+    match r.below(4) {
+        0 => items.push(format!("h:{}", 0xffff - rf::fold(rf::word_sum(&data)))),
+        1 => items.push(format!("h:{}", (0xffffu16 - rf::fold(rf::word_sum(&data))).wrapping_add(1))),
+        2 => {
+            items.clear();
+            items.push(format!("r:{}", hex(&vec![0u8; r.below(5) as usize])));
+            items.push("h:0".into());
+        }
+        _ => {}
+    }
+    ex::apply(&format!("cksum {}", items.join(" ")), out);
+}
+
+// ---------------- UDP ----------------
+
+fn udp_text(r: &mut Rng, mode: Mode) -> Vec<u8> {
+    let l = if mode == Mode::C14 { r.below(40) as usize } else { vlen(r, 65527) };
+    if r.chance(1, 6) { vec![*r.pick(&[0u8, 0xff]); l] } else { r.bytes(l) }
+}
+
+fn udp_malformed(r: &mut Rng, valid: &[u8]) -> (Vec<u8>, usize) {
+    let mut v = valid.to_vec();
+    let plen = v.len();
+    match r.below(9) {
+        0 => {
+            let b = rbytes(r, 30);
+            let l = b.len();
+            (b, l)
+        }
+        1 | 2 => {
+            v.truncate(r.below(v.len() as u64 + 1) as usize);
+            let l = if r.chance(1, 2) { v.len() } else { plen };
+            (v, l)
+        }
+        3 => {
+            let l = *r.pick(&[0u16, 1, 7, 8, 9, 0xffff]);
+            v[4..6].copy_from_slice(&l.to_be_bytes());
+            (v, plen)
+        }
+        4 => (v, *r.pick(&[0usize, 7, 8, plen + 1, plen.saturating_sub(1), 65535, 65536, usize::MAX])),
+        5 => {
+            let c = v16(r);
+            v[6..8].copy_from_slice(&c.to_be_bytes());
+            (v, plen)
+        }
+        6 => {
+            let i = r.below(v.len() as u64) as usize;
+            v[i] = r.next() as u8;
+            (v, plen)
+        }
+        7 => {
+            v.push(r.next() as u8);
+            (v, plen)
+        }
+        _ => {
+            let i = r.below(v.len() as u64 * 8) as usize;
+            rf::flip(&mut v, i);
+            (v, plen)
+        }
+    }
+}
+
+pub fn gen_udp(r: &mut Rng, mode: Mode, case: u64, out: &mut Out) {
+    let (src, dst, mut sport, dport) = (v32(r), v32(r), v16(r), v16(r));
+    let text = udp_text(r, mode);
+    if mode == Mode::C18 && r.chance(1, 4) {
+        // source port such that the one's-complement sum over everything is 0xffff
+        let h = ex::udp_reference(src, 0, dst, dport, &text, false);
+        let mut seg = h.clone();
+        seg.extend_from_slice(&text);
+        let s = rf::fold(rf::word_sum(&rf::with_pseudo(src, dst, 17, seg.len() as u16, &seg)));
+        sport = 0xffff - s;
+        out.count("gen.udp.crafted_sum_ffff");
+    }
+    let mut valid = ex::udp_reference(src, sport, dst, dport, &text, CK);
+    valid.extend_from_slice(&text);
+    let small = text.len() <= 64;
+    if mode != Mode::C14 {
+        ex::apply(&format!("udpbuild {} {} {} {} {} {}", src, sport, dst, dport, text.len(), hex(&text)), out);
+        if text.len() <= 4096 {
+            ex::apply(&format!("udprt {} {} {} {} {}", src, sport, dst, dport, hex(&text)), out);
+        }
+        ex::apply(&format!("udpdec {} {} {} {}", valid.len(), src, dst, hex(&valid)), out);
+        if CK {
+            // a conforming sender that does not compute the checksum (RFC 768: field zero)
+            let mut nock = valid.clone();
+            nock[6] = 0;
+            nock[7] = 0;
+            if r.chance(1, 8) {
+                ex::apply(&format!("udpdec {} {} {} {}", nock.len(), src, dst, hex(&nock)), out);
+            }
+        }
+        out.mark_nontrivial();
+    }
+    if mode == Mode::C08 && r.chance(1, 6) {
+        // length limits of the builder: first length that does not fit, inconsistent text_len,
+        // usize overflow
+        let tl = *r.pick(&[65527usize, 65528, 65529, 100000, usize::MAX - 8, usize::MAX - 7, usize::MAX]);
+        let t = rbytes(r, 6);
+        ex::apply(&format!("udpbuild {} {} {} {} {} {}", src, sport, dst, dport, tl, hex(&t)), out);
+    }
+    if mode == Mode::C18 {
+        let nbits = valid.len() * 8;
+        if small && case % 4 == 0 {
+            for i in 0..nbits {
+                ex::apply(&format!("udpflip {} {} {} {} {}", i, valid.len(), src, dst, hex(&valid)), out);
+            }
+        } else if valid.len() <= 4096 {
+            for _ in 0..4 {
+                ex::apply(&format!("udpflip {} {} {} {} {}", r.below(nbits as u64), valid.len(), src, dst, hex(&valid)), out);
+            }
+        }
+        if valid.len() <= 4096 {
+            for _ in 0..4 {
+                let a = r.below(nbits as u64);
+                let c = if r.chance(1, 2) { (a + 16 * (1 + r.below(nbits as u64 / 16))) % nbits as u64 } else { r.below(nbits as u64) };
+                ex::apply(&format!("udpflip {},{} {} {} {} {}", a, c, valid.len(), src, dst, hex(&valid)), out);
+            }
+        }
+    }
+    let n = if mode == Mode::C14 { 12 } else { 2 };
+    let base: Vec<u8> = if valid.len() > 200 { valid[..200].to_vec() } else { valid.clone() };
+    for _ in 0..n {
+        let (m, plen) = udp_malformed(r, &base);
+        ex::apply(&format!("udpdec {} {} {} {}", plen, src, dst, hex(&m)), out);
+    }
+    if mode == Mode::C14 {
+        if case % 16 == 0 {
+            for l in 0..=base.len().min(24) {
+                ex::apply(&format!("udpdec {} {} {} {}", l, src, dst, hex(&base[..l])), out);
+            }
+        }
+        out.mark_nontrivial();
+    }
+}
+
+// ---------------- TCP ----------------
+
+fn tcp_setters(r: &mut Rng, case: u64, rf_: &mut TcpRef) -> String {
+    // all 64 flag combinations, spread over the cases; order of the setters shuffled
+    let k = case % 64;
+    let mut s: Vec<String> = vec![];
+    if r.chance(3, 4) {
+        rf_.wnd = v16(r);
+        s.push(format!("wnd={}", rf_.wnd));
+    }
+    if k & 32 != 0 {
+        rf_.urgp = v16(r);
+        rf_.urg = true;
+        s.push(format!("urg={}", rf_.urgp));
+    }
+    if k & 16 != 0 {
+        rf_.ack = v32(r);
+        rf_.ackf = true;
+        s.push(format!("ack={}", rf_.ack));
+    }
+    if k & 8 != 0 {
+        rf_.psh = true;
+        s.push("psh".into());
+    }
+    if k & 4 != 0 {
+        rf_.rst = true;
+        s.push("rst".into());
+    }
+    if k & 2 != 0 {
+        rf_.syn = true;
+        s.push("syn".into());
+    }
+    if k & 1 != 0 {
+        rf_.fin = true;
+        s.push("fin".into());
+    }
+    for i in (1..s.len()).rev() {
+        let j = r.below(i as u64 + 1) as usize;
+        s.swap(i, j);
+    }
+    if s.is_empty() { "-".into() } else { s.join(",") }
+}
+
+fn tcp_malformed(r: &mut Rng, valid: &[u8]) -> (Vec<u8>, usize) {
+    let mut v = valid.to_vec();
+    let plen = v.len();
+    match r.below(10) {
+        0 => {
+            let b = rbytes(r, 50);
+            let l = b.len();
+            (b, l)
+        }
+        1 | 2 => {
+            v.truncate(r.below(v.len() as u64 + 1) as usize);
+            let l = if r.chance(1, 2) { v.len() } else { plen };
+            (v, l)
+        }
+        3 => {
+            // data offset other than 5, reserved bits
+            v[12] = *r.pick(&[0x00u8, 0x40, 0x60, 0xf0, 0x51, 0x5f, 0x05]);
+            (v, plen)
+        }
+        4 => (v, *r.pick(&[0usize, 19, 20, plen + 1, 65535, 65536, 1 << 32, usize::MAX])),
+        5 => {
+            let c = v16(r);
+            v[16..18].copy_from_slice(&c.to_be_bytes());
+            (v, plen)
+        }
+        6 => {
+            // ECN / reserved control bits (RFC 9293: CWR, ECE)
+            v[13] |= *r.pick(&[0x40u8, 0x80, 0xc0]);
+            (v, plen)
+        }
+        7 => {
+            let i = r.below(v.len() as u64) as usize;
+            v[i] = r.next() as u8;
+            (v, plen)
+        }
+        8 => {
+            v.push(r.next() as u8);
+            (v, plen)
+        }
+        _ => {
+            let i = r.below(v.len() as u64 * 8) as usize;
+            rf::flip(&mut v, i);
+            (v, plen)
+        }
+    }
+}
+
+pub fn gen_tcp(r: &mut Rng, mode: Mode, case: u64, out: &mut Out) {
+    let (src, dst) = (v32(r), v32(r));
+    let mut t = TcpRef { sp: v16(r), dp: v16(r), seq: v32(r), doff: 5, ..Default::default() };
+    let setters = tcp_setters(r, case, &mut t);
+    let l = if mode == Mode::C14 { r.below(40) as usize } else { vlen(r, 65515) };
+    let text = if r.chance(1, 6) { vec![*r.pick(&[0u8, 0xff]); l] } else { r.bytes(l) };
+    let mut setters = setters;
+    if mode == Mode::C18 && r.chance(1, 4) && !setters.contains("wnd=") {
+        // window such that the one's-complement sum over everything is 0xffff
+        t.wnd = 0;
+        let mut seg = t.bytes();
+        seg.extend_from_slice(&text);
+        let s = rf::fold(rf::word_sum(&rf::with_pseudo(src, dst, 6, seg.len() as u16, &seg)));
+        t.wnd = 0xffff - s;
+        setters = if setters == "-" { format!("wnd={}", t.wnd) } else { format!("{},wnd={}", setters, t.wnd) };
+        out.count("gen.tcp.crafted_sum_ffff");
+    }
+    let refh = if CK { t.with_checksum(src, dst, &text) } else { t };
+    let mut valid = refh.bytes();
+    valid.extend_from_slice(&text);
+    let small = text.len() <= 44;
+    if mode != Mode::C14 {
+        ex::apply(&format!("tcpbuild {} {} {} {} {} {} {} {}", t.sp, t.dp, t.seq, setters, src, dst, text.len(), hex(&text)), out);
+        if text.len() <= 4096 {
+            ex::apply(&format!("tcprt {} {} {} {} {} {} {}", t.sp, t.dp, t.seq, setters, src, dst, hex(&text)), out);
+        }
+        // the independent implementation's output
+        ex::apply(&format!("tcpdec {} {} {} {}", valid.len(), src, dst, hex(&valid)), out);
+        if CK && refh.cksum == 0 {
+            let mut alt = valid.clone();
+            alt[16] = 0xff;
+            alt[17] = 0xff;
+            ex::apply(&format!("tcpdec {} {} {} {}", alt.len(), src, dst, hex(&alt)), out);
+        }
+        out.mark_nontrivial();
+    }
+    if mode == Mode::C08 {
+        ex::apply(&format!("tcpser {} {} {} {} {} {} {} {} {}", t.sp, t.dp, t.seq, t.ack, if r.chance(1, 4) { v8(r) } else { 5 }, case % 256, t.wnd, t.urgp, v16(r)), out);
+        let k = case % 64;
+        ex::apply(&format!("tcpctl {} {} {} {} {} {}", k >> 5 & 1, k >> 4 & 1, k >> 3 & 1, k >> 2 & 1, k >> 1 & 1, k & 1), out);
+        ex::apply(&format!("tcpbits {}", case % 256), out);
+        if r.chance(1, 6) {
+            let tl = *r.pick(&[65515usize, 65516, 65517, 100000, usize::MAX - 20, usize::MAX - 19, usize::MAX]);
+            let tx = rbytes(r, 6);
+            ex::apply(&format!("tcpbuild {} {} {} {} {} {} {} {}", t.sp, t.dp, t.seq, setters, src, dst, tl, hex(&tx)), out);
+        }
+        // a conforming peer may set the reserved / ECN bits: accepted, re-encoding loses them
+        if r.chance(1, 5) && !CK {
+            let mut e = valid.clone();
+            if r.chance(1, 2) {
+                e[13] |= *r.pick(&[0x40u8, 0x80, 0xc0]);
+            } else {
+                e[12] |= 1 + r.below(15) as u8;
+            }
+            ex::apply(&format!("tcpdec {} {} {} {}", e.len(), src, dst, hex(&e)), out);
+        }
+    }
+    if mode == Mode::C18 {
+        let nbits = valid.len() * 8;
+        if small && case % 4 == 0 {
+            for i in 0..nbits {
+                ex::apply(&format!("tcpflip {} {} {} {} {}", i, valid.len(), src, dst, hex(&valid)), out);
+            }
+        } else if valid.len() <= 4096 {
+            for _ in 0..4 {
+                ex::apply(&format!("tcpflip {} {} {} {} {}", r.below(nbits as u64), valid.len(), src, dst, hex(&valid)), out);
+            }
+        }
+        if valid.len() <= 4096 {
+            for _ in 0..4 {
+                let a = r.below(nbits as u64);
+                let c = if r.chance(1, 2) { (a + 16 * (1 + r.below(nbits as u64 / 16))) % nbits as u64 } else { r.below(nbits as u64) };
+                ex::apply(&format!("tcpflip {},{} {} {} {} {}", a, c, valid.len(), src, dst, hex(&valid)), out);
+            }
+        }
+    }
+    let n = if mode == Mode::C14 { 12 } else { 2 };
+    let base: Vec<u8> = if valid.len() > 200 { valid[..200].to_vec() } else { valid.clone() };
+    for _ in 0..n {
+        let (m, plen) = tcp_malformed(r, &base);
+        ex::apply(&format!("tcpdec {} {} {} {}", plen, src, dst, hex(&m)), out);
+    }
+    if mode == Mode::C14 {
+        if case % 16 == 0 {
+            for l in 0..=base.len().min(30) {
+                ex::apply(&format!("tcpdec {} {} {} {}", l, src, dst, hex(&base[..l])), out);
+            }
+        }
+        out.mark_nontrivial();
+    }
+}
+
+// ---------------- entry points ----------------
+
+pub const RULE: &str = "one case = one random header (every field over its full range, boundary biased; payload lengths 0/odd/even/MTU/16-bit limit; all 64 TCP flag combinations, 256 TOS bytes and 4 IPv4 flag values cycled by case number) pushed through build, build+decode, decode of the independent RFC encoding, re-serialisation, plus malformed variants (random bytes, truncations, single-field mutations, extreme lengths); C18 adds crafted one's-complement sums 0xffff/0x0000, every single-bit and sampled double-bit corruption and accumulator op sequences; every case with a valid header is non-trivial; distinct = hash of its op lines";
+
+pub fn run_proto(args: &Args, proto: &str, mode: Mode) {
+    let mut out = Out::new(&args.out);
+    out.max_samples = 2;
+    ex::REENCODE_ORACLE.store(mode == Mode::C08, std::sync::atomic::Ordering::Relaxed);
+    if let Some(rp) = &args.replay {
+        out.begin_case(0);
+        out.mark_nontrivial();
+        for l in read_ops(rp) {
+            if l.starts_with("case ") {
+                continue;
+            }
+            ex::apply(&l, &mut out);
+        }
+        out.end_case();
+        out.finish(RULE);
+        return;
+    }
+    let mut rng = Rng::new(args.seed);
+    for c in 0..args.cases {
+        let mut r = rng.fork();
+        out.begin_case(c);
+        ex::apply("ck", &mut out);
+        match proto {
+            "ipv4" => gen_ipv4(&mut r, mode, c, &mut out),
+            "udp" => gen_udp(&mut r, mode, c, &mut out),
+            "tcp" => gen_tcp(&mut r, mode, c, &mut out),
+            _ => {}
+        }
+        out.end_case();
+    }
+    out.finish(RULE);
+}
 
 pub fn run(args: &Args) {
-    eprintln!("hcore: {} not implemented yet", args.prop);
-    std::process::exit(2);
+    match args.prop.as_str() {
+        "c08-ipv4" => run_proto(args, "ipv4", Mode::C08),
+        "c08-udp" => run_proto(args, "udp", Mode::C08),
+        "c08-tcp" => run_proto(args, "tcp", Mode::C08),
+        p => {
+            eprintln!("hcore: {} not implemented (another builder owns the ARP/DNS/DHCP sub-commands)", p);
+            std::process::exit(2);
+        }
+    }
 }
